@@ -423,6 +423,25 @@ pub fn run_case(tape: &mut Tape, _tier: Tier, _p: &CaseParams) -> CaseOutcome {
       .get_mut("/mod.ts")
       .unwrap()
       .push("export type X = { tag: \"x\"; v: number };".to_string());
+    // the first package may re-export the whole second one (the one
+    // construct that makes the public-API trace cross into another package)
+    // and use a second entrypoint of it privately
+    if tape.draw(Stream::World, 3) == 2 {
+      let has_extra = dep.exports.contains_key("./extra");
+      let m = pkgs[0].files.get_mut("/mod.ts").unwrap();
+      m.insert(0, "export * from \"jsr:@c/d@1\";".to_string());
+      if has_extra {
+        m.insert(1, "import { extra as depExtra } from \"jsr:@c/d@1/extra\";".to_string());
+        m.push("export function viaExtra(): number { return depExtra(1) === 1 ? 1 : 0; }".to_string());
+      }
+    }
+    if tape.draw(Stream::World, 2) == 1 {
+      dep
+        .files
+        .get_mut("/mod.ts")
+        .unwrap()
+        .push("export default function dflt(): boolean { return true; }".to_string());
+    }
     pkgs.push(dep);
   } else {
     pkgs.push(gen_pkg(tape, "@a/b", None));
